@@ -3,6 +3,7 @@
 cd "$(dirname "$0")"
 V=$(pwd)
 . "$V/env.sh"
+export VERIF_DIR="$V"
 if [ ! -x "$V/.build/vdrv" ] || [ "$V/driver/main.go" -nt "$V/.build/vdrv" ]; then
   mkdir -p "$V/.build"
   (cd "$V/driver" && CGO_ENABLED=0 $GO build -o "$V/.build/vdrv" .) || { echo "check: driver build failed" >&2; exit 2; }
